@@ -353,7 +353,14 @@ pub fn run(seed: u64, ntraces: usize) {
                     if g.toks.is_empty() { continue; }
                     let caller = if r.chance(3, 4) { g.operator.clone() } else { anyone.clone() };
                     let tid = g.toks[r.below(g.toks.len() as u64) as usize].id.clone(); let l = match r.below(3) { 0 => 0, _ => 5 + r.below(40) };
-                    g.its_tx("setFlowLimits", &caller, "setFlowLimits", vec![big(1), tid.clone(), big(1), big(l)], 0, &[], json!({"ids": [hx(&tid)], "limits": [l.to_string()]}));
+                    match r.below(6) {
+                        0 => { // two ids (the second possibly unknown): all or nothing
+                            let tid2 = if r.chance(1, 2) { g.toks[r.below(g.toks.len() as u64) as usize].id.clone() } else { r.bytes(32) }; let l2 = 1 + r.below(30);
+                            g.its_tx("setFlowLimits", &caller, "setFlowLimits", vec![big(2), tid.clone(), tid2.clone(), big(2), big(l), big(l2)], 0, &[], json!({"ids": [hx(&tid), hx(&tid2)], "limits": [l.to_string(), l2.to_string()]})); }
+                        1 => { // lengths differ
+                            g.its_tx("setFlowLimits", &caller, "setFlowLimits", vec![big(1), tid.clone(), big(2), big(l), big(7)], 0, &[], json!({"ids": [hx(&tid)], "limits": [l.to_string(), "7"]})); }
+                        _ => { g.its_tx("setFlowLimits", &caller, "setFlowLimits", vec![big(1), tid.clone(), big(1), big(l)], 0, &[], json!({"ids": [hx(&tid)], "limits": [l.to_string()]})); }
+                    }
                 }
                 10 => { let caller = if r.chance(3, 4) { g.owner.clone() } else { anyone.clone() }; let p = !g.paused;
                     if p && !scripted && r.chance(1, 2) { continue; }
@@ -419,7 +426,7 @@ pub fn run(seed: u64, ntraces: usize) {
                     let role_holder = if tminter.len() == 32 && tminter != vec![0u8; 32] { VMAddress::new(tminter.clone().try_into().unwrap()) } else { g.operator.clone() };
                     let caller = if scripted || r.chance(2, 3) { role_holder.clone() } else { anyone.clone() };
                     let other = r.pick(&g.users).clone();
-                    let k = if scripted { 0 } else { r.below(9) };
+                    let k = if scripted { 0 } else { r.below(15) };
                     let (top, ep, args, esdt): (Value, &str, Vec<Vec<u8>>, Vec<(Vec<u8>, u64, BigUint)>) = match k {
                         0 => (json!({"op": "transferMint", "a": hx(other.as_bytes())}), "transferMintership", vec![other.to_vec()], vec![]),
                         1 => (json!({"op": "proposeMint", "a": hx(other.as_bytes())}), "proposeMintership", vec![other.to_vec()], vec![]),
@@ -428,7 +435,13 @@ pub fn run(seed: u64, ntraces: usize) {
                         4 => (json!({"op": "addFL", "a": hx(other.as_bytes())}), "addFlowLimiter", vec![other.to_vec()], vec![]),
                         5 => { let l = 5 + r.below(40); (json!({"op": "setLimit", "limit": l.to_string()}), "setFlowLimit", vec![big(l)], vec![]) }
                         6 | 7 => { let v = 1 + r.below(50); (json!({"op": "mint", "a": hx(other.as_bytes()), "amount": v.to_string()}), "mint", vec![other.to_vec(), big(v)], vec![]) }
-                        _ => { let v = 1 + r.below(5); let e = vec![(ttok.clone().unwrap_or(tok.clone()), 0u64, bn(v))]; (json!({"op": "burn"}), "burn", vec![], e) }
+                        8 => { let v = 1 + r.below(5); let e = vec![(ttok.clone().unwrap_or(tok.clone()), 0u64, bn(v))]; (json!({"op": "burn"}), "burn", vec![], e) }
+                        9 => (json!({"op": "proposeOp", "a": hx(other.as_bytes())}), "proposeOperatorship", vec![other.to_vec()], vec![]),
+                        10 => (json!({"op": "acceptOp", "a": hx(other.as_bytes())}), "acceptOperatorship", vec![other.to_vec()], vec![]),
+                        11 => (json!({"op": "removeFL", "a": hx(other.as_bytes())}), "removeFlowLimiter", vec![other.to_vec()], vec![]),
+                        12 => { let b = r.pick(&g.users).clone(); (json!({"op": "transferFL", "a": hx(other.as_bytes()), "b": hx(b.as_bytes())}), "transferFlowLimiter", vec![other.to_vec(), b.to_vec()], vec![]) }
+                        13 => { let v = 1 + r.below(20); (json!({"op": "give", "dest": hx(other.as_bytes()), "amount": v.to_string()}), "giveToken", vec![other.to_vec(), big(v)], vec![]) }   // not the service: refused
+                        _ => { let v = 1 + r.below(20); let e = vec![(ttok.clone().unwrap_or(tok.clone()), 0u64, bn(v))]; (json!({"op": "take"}), "takeToken", vec![], e) }
                     };
                     let st = g.w.tx(&caller, &tm, ep, args, &bn(0), &esdt);
                     let mut top = top; top["caller"] = json!(hx(caller.as_bytes())); top["now"] = json!(g.now); top["egld"] = json!("0");
